@@ -19,7 +19,7 @@ def gen_partition_case(seed, idx, wellformed=True, max_nodes=260, force=None):
     box, bmode = gen_box(rnd, d, force.get("bmode"))
     qmode = force.get("qmode") or rnd.choice(["mixed", "mixed", "dyadic", "random", "end"])
     meta = {"gen": "partition", "seed": seed, "idx": idx, "wellformed": wellformed, "kind": kind,
-            "K": K, "d": d, "box": box, "bmode": bmode, "qmode": qmode}
+            "K": K, "d": d, "box": box, "bmode": bmode, "qmode": qmode, "force": dict(force)}
     case = Case(f"part-{seed}-{idx}", meta)
     case.tags[f"kind={kind}"] += 1
     case.tags[f"d={d}"] += 1
@@ -41,10 +41,10 @@ def gen_partition_case(seed, idx, wellformed=True, max_nodes=260, force=None):
             tgt = [lo + rnd.random() * (hi - lo) for lo, hi in box]
         elif pol == "corner":
             tgt = [rnd.choice([lo, hi]) for lo, hi in box]
-        depth_goal = min(force.get("chain_depth") or rnd.choice([12, 25, 40, 60]), 700 // arity)
+        depth_goal = max(1, min(force.get("chain_depth") or rnd.choice([12, 25, 40, 60]), 700 // arity))
         chain = {"pol": pol, "tgt": tgt, "cur": None}
         meta.update(shape="chain", policy=pol, chain_depth=depth_goal)
-        max_nodes = 1000
+        max_nodes = force.get("max_nodes") or 1000
         case.tags[f"chain={pol}"] += 1
     ops_done = []
     with RngCtl(rnd, qmode=qmode) as rng:
@@ -135,7 +135,7 @@ def gen_partition_case(seed, idx, wellformed=True, max_nodes=260, force=None):
                     for sig, det in monitors.c02_split(kind, K, par.get_domain(), [k.get_domain() for k in kids],
                                                        [k.get_cpoint() for k in kids], c, n_children=nch):
                         case.fail("C02", sig, det, step=step, kind=kind, K=K, d=d)
-                for sig, det in monitors.c03_tree(part):
+                for sig, det in monitors.c03_tree(part, arity=arity):
                     case.fail("C03", sig, det, step=step, kind=kind, K=K, d=d, via="partition-ops")
         if wellformed:
             for sig, det in monitors.c02_leaves_tile(box, [n.get_domain() for n in leaves_of(part)]):
@@ -145,6 +145,23 @@ def gen_partition_case(seed, idx, wellformed=True, max_nodes=260, force=None):
     meta["ops"] = ops_done
     meta["n_nodes"] = len(part._all)
     return case
+
+
+# extreme but documented configurations (all arities, all dimensions): one or two levels of a very wide tree
+EXTREME = [
+    {"kind": "dimBinary", "d": 9, "shape": "chain", "policy": "last", "chain_depth": 1, "max_nodes": 3000},
+    {"kind": "dimBinary", "d": 10, "shape": "chain", "policy": "first", "chain_depth": 1, "max_nodes": 3000},
+    {"kind": "dimBinary", "d": 6, "shape": "chain", "policy": "last", "chain_depth": 12, "max_nodes": 3000},
+    {"kind": "kary", "K": 64, "d": 2, "shape": "chain", "policy": "mid", "chain_depth": 6, "max_nodes": 3000},
+    {"kind": "kary", "K": 300, "d": 1, "shape": "chain", "policy": "last", "chain_depth": 3, "max_nodes": 3000},
+    {"kind": "kary", "K": 1000, "d": 1, "shape": "chain", "policy": "zero", "chain_depth": 2, "max_nodes": 3000},
+    {"kind": "randKary", "K": 40, "d": 3, "shape": "chain", "policy": "point", "chain_depth": 5, "max_nodes": 3000},
+    {"kind": "randKary", "K": 260, "d": 1, "shape": "chain", "policy": "first", "chain_depth": 2, "max_nodes": 3000},
+]
+
+
+def extreme_cases(seed):
+    return [gen_partition_case(seed, 770000 + j, wellformed=True, force=dict(f)) for j, f in enumerate(EXTREME)]
 
 
 if __name__ == "__main__":
